@@ -83,7 +83,7 @@ def bincode_golden(env):
             fails.append(dict(scenario='read_request', args=dict(bytes=good[:k].hex()), expected=dict(ok=False), observed=back))
     cases.append(dict(kind='strict-prefixes-rejected', ok=not any(f['scenario'] == 'read_request' and f['expected'] == dict(ok=False) for f in fails)))
     return dict(name='bincode_golden', validates='bincode 1.3 layout of RawRequestHeader / RawResponseHeader, tokio-util length prefix, preamble; on the real code',
-                cases=len(cases), failed=fails, ok=not fails, props=['C07'],
+                cases=len(cases), failed=fails, ok=not fails, props=['C07', 'C02'],
                 clause='bytes produced follow the established layout; decoding reproduces route/status, headers, body; extensions never travel')
 
 
@@ -193,3 +193,22 @@ def default_timeouts_wiring(env):
     return dict(name='default_timeouts_wiring', validates='Builder::start installs the timeout layers with the configured defaults around the user service and around every outbound call, whatever the order of builder calls',
                 cases=cases, failed=fails, ok=not fails, props=['C11'],
                 clause='the configured defaults take effect on every RPC made through a network: a handler needing more is cut off at that deadline (RequestTimeout on the serving side, a timeout error on the calling side)')
+
+
+def rpc_pairing(env):
+    """C02 on real networks over loopback: concurrent RPCs in both directions with handlers completing out of order; and a fault after
+    the handler ran (response larger than the server's frame limit): no request is ever handled more than once"""
+    fails, cases = [], 0
+    for sc in (dict(n=16), dict(n=40), dict(n=6, oversized_response=True)):
+        got = _run('rpc_pairing', sc, env)
+        cases += 1
+        ok = got.get('mismatched') == [] and got.get('max_handler_invocations_per_request', 99) <= 1
+        if sc.get('oversized_response'):
+            ok = ok and got.get('errors', 0) >= 1      # the callers whose response could not be sent see an error, not a wrong response
+        else:
+            ok = ok and got.get('errors') == 0 and got.get('requests_handled') == sc['n']
+        if not ok:
+            fails.append(dict(scenario='rpc_pairing', args=sc, expected=dict(mismatched=[], max_handler_invocations_per_request=1), observed=got))
+    return dict(name='rpc_pairing', validates='stream-per-request isolation of quinn and the pairing of request and response under concurrency (ASSUMED by the contracts); at-most-once handling under a fault after the handler ran',
+                cases=cases, failed=fails, ok=not fails, props=['C02'],
+                clause='each RPC yields its own response or an error; responses are never swapped; no request is delivered to a handler more than once')
